@@ -466,6 +466,8 @@ class DataFile:
     begin_time = tci.to_temporal_offset() - self.start_offset
     if begin_time < 0:
       LOGGER.debug("Skipping subtitle because TCI is less than start time")
+      if tti.CS in (0x00, 0x01):
+        self.cur_p_element = None
       return
     LOGGER.debug("  Time in: %s", tci)
 
@@ -477,7 +479,7 @@ class DataFile:
 
     # create a new subtitle if SN changes and we are not in cumulative mode
 
-    if tti.SN is not self.last_sn and tti.CS in (0x00, 0x01):
+    if self.cur_p_element is None or (tti.SN != self.last_sn and tti.CS in (0x00, 0x01)):
 
       self.last_sn =  tti.SN
 
